@@ -22,11 +22,12 @@ RULE = (
     "members) compared with the constructed object on witness/uniform/near points, area and moments against the "
     "reference integrals, the complement against the model complement, every permutation of the list (<= 4 members) "
     "against the first one (membership, area, ==), and the operator-built shape (outer - holes, union of "
-    "components) with library == in both directions; collapse rules: DisjointShape([S]) is an equal but "
+    "components; for families of 3-5 strictly nested curves every ring is operator-built too) with library == in both "
+    "directions; ~~X and copy(X) answer and compare like X; collapse rules: DisjointShape([S]) is an equal but "
     "independent copy, DisjointShape([]) and only-Empty lists give the EmptyShape singleton. Non-trivial: >= 3 "
     "members or two members of equal area."
 )
-MANDATORY = ["connected+", "connected-", "disjoint+", "disjoint-", "permutations", "operator-built", "empty-entries", "collapse", "curved", "equal-areas", "tiny-member"]
+MANDATORY = ["connected+", "connected-", "disjoint+", "disjoint-", "permutations", "operator-built", "empty-entries", "collapse", "curved", "equal-areas", "tiny-member", "nested>=4"]
 
 
 def _members(spec):
@@ -40,6 +41,17 @@ def _construct(spec, members):
     if spec["k"] == "connected":
         return Sp.ConnectedShape([lib.build(m) for m in members])
     return Sp.DisjointShape([lib.build(m) for m in members])
+
+
+def _ring_by_operators(spec):
+    Sp = lib.sp()
+    cs = [lib.tup(c) for c in spec["curves"]]
+    outer = [c for c in cs if rg.curve_area(c) > 0]
+    holes = [c for c in cs if rg.curve_area(c) < 0]
+    acc = lib.simple_from_curve(outer[0]) if outer else Sp.WholeShape()
+    for h in holes:
+        acc = acc - lib.simple_from_curve(rg.curve_reverse(h))
+    return acc
 
 
 def _observe(shape, pts):
@@ -59,7 +71,7 @@ def judge(ctx, case):
     kind = lib.spec_kind(spec)
     areas = [float(lib.spec_moment(m)) for m in members]
     equal_areas = len({round(a, 9) for a in areas}) < len(areas)
-    strata = [kind] + (["curved"] if curved else []) + (["equal-areas"] if equal_areas else []) + (["tiny-member"] if case.get("tiny") else [])
+    strata = [kind] + (["nested>=4"] if case.get("levels", 0) >= 4 else []) + (["curved"] if curved else []) + (["equal-areas"] if equal_areas else []) + (["tiny-member"] if case.get("tiny") else [])
     ctx.evaluated(case, len(members) >= 3 or equal_areas, strata)
     where = ("curved" if curved else "polygon") + ":" + kind
     margin = oc.MARGIN_CURVED if curved else probes.MARGIN
@@ -100,6 +112,17 @@ def judge(ctx, case):
                 ctx.violation("construct", "complement-membership", case, "~constructed differs from the model complement (kind %s)" % kinv, where)
             if abs(ainv + ref_area) > 1e-9 * max(abs(ref_area), size * size):
                 ctx.violation("construct", "complement-area", case, "float(~X) = %r, expected %r" % (ainv, -ref_area), where)
+            # the complement of the complement and a copy are the same shape again
+            import copy as _copy
+
+            for name, again in (("~~X", ~inv), ("copy(X)", _copy.copy(base))):
+                kk, aa, inn = _observe(again, pts)
+                if kk != k0 or inn != truth:
+                    ctx.violation("construct", "double-complement-or-copy-differs", case, "%s: kind %s, membership %s the model" % (name, kk, "as" if inn == truth else "differs from"), where)
+                    break
+                if ((again == base), (base == again)) != (True, True):
+                    ctx.violation("construct", "double-complement-or-copy-not-equal", case, "%s == X is not True both ways" % name, where)
+                    break
     except BaseException as exc:
         ctx.violation("construct", "raised-in-observation", case, repr(exc), innermost_shapepy_frame(exc))
     # ---- permutations -------------------------------------------------------
@@ -108,6 +131,8 @@ def judge(ctx, case):
         if len(perms) > 6:
             step = len(perms) // 6
             perms = perms[::step][:6]
+        if case.get("levels"):
+            perms = perms[:1]  # == on many curves is slow; the permutation parts cover the orders
         ctx.count("stratum:permutations")
         for perm in perms:
             try:
@@ -130,16 +155,12 @@ def judge(ctx, case):
         try:
             with call_limit(400):
                 if spec["k"] == "connected":
-                    cs = [lib.tup(c) for c in spec["curves"]]
-                    outer = [c for c in cs if rg.curve_area(c) > 0]
-                    holes = [c for c in cs if rg.curve_area(c) < 0]
-                    acc = lib.simple_from_curve(outer[0]) if outer else Sp.WholeShape()
-                    for h in holes:
-                        acc = acc - lib.simple_from_curve(rg.curve_reverse(h))
+                    acc = _ring_by_operators(spec)
                 else:
                     acc = Sp.EmptyShape()
                     for m in members:
-                        acc = acc | lib.build(m)
+                        # rings of a nested family are themselves operator-built
+                        acc = acc | (_ring_by_operators(m) if m["k"] == "connected" and case.get("levels") else lib.build(m))
                 k2, a2, in2 = _observe(acc, pts)
                 eq = (acc == base, base == acc)
         except BaseException as exc:
@@ -203,6 +224,20 @@ def cases(draw, curved):
     kind = draw(st.sampled_from(S.KINDS[4:]))
     spec = draw(S.shape_spec(nk, deg, kinds=[kind]))
     return {"spec": spec, "us": draw(st.lists(st.floats(0, 1), min_size=12, max_size=12)), "operators": draw(st.integers(0, 2)) == 0}
+
+
+@st.composite
+def nested_cases(draw):
+    """rings inside rings: 3..6 nesting levels, always with the
+    operator-built counterpart"""
+    curved = draw(st.integers(0, 5)) == 0
+    if curved:
+        nk, deg = "float", draw(st.sampled_from([(1, 2), (2,)]))
+    else:
+        nk, deg = draw(st.sampled_from(S.NUMKINDS)), (1,)
+    levels = draw(st.sampled_from([3, 4, 4, 4] if curved else [3, 4, 4, 4, 5]))
+    spec = draw(S.nested_rings_spec(nk, deg, levels, bounded=draw(st.integers(0, 3)) > 0))
+    return {"spec": spec, "us": draw(st.lists(st.floats(0, 1), min_size=12, max_size=12)), "operators": True, "levels": levels}
 
 
 @st.composite
@@ -271,6 +306,7 @@ def parts(tier):
     q = tier == "quick"
     return [
         Part("polygons", judge, cases(False), n=500 if q else 20000, budget_s=70 if q else 2400),
+        Part("nested-rings", judge, nested_cases(), n=48 if q else 3000, budget_s=90 if q else 1500),
         Part("equal-areas", judge, equal_area_cases(), n=160 if q else 6000, budget_s=50 if q else 1200),
         Part("curved", judge, cases(True), n=32 if q else 800, budget_s=70 if q else 3000, shards=16),
         Part("tiny-members", judge, tiny_member_cases(), n=120 if q else 4000, budget_s=50 if q else 1200),
